@@ -97,10 +97,10 @@ theorem addEntry_ok (z z' : ZoneMap) (eff : Option Name) (e : Entry) (hz : ZoneO
     (h : addEntry z eff e = .ok z') : ZoneOK z' :=
   zoneAdd_ok z z' eff e.name e.ttl e.rdtype e.rr hz h
 
-theorem generateLoop_ok (ttl ty : Nat) (items : List (List Nat × List Nat)) (r r' : PState) (z z' : ZoneMap) (b : Bool)
-    (hz : ZoneOK z) (h : generateLoop ttl ty items r z = .ok (b, r', z')) : ZoneOK z' := by
+theorem generateLoop_ok (ttl ty : Nat) (items : List (List Nat × List Nat)) (r r' : PState) (z z' : ZoneMap)
+    (hz : ZoneOK z) (h : generateLoop ttl ty items r z = .ok (r', z')) : ZoneOK z' := by
   induction items generalizing r z with
-  | nil => simp [generateLoop, pure, Except.pure] at h; rw [← h.2.2]; exact hz
+  | nil => simp [generateLoop, pure, Except.pure] at h; rw [← h.2]; exact hz
   | cons item rest ih =>
     simp only [generateLoop, bind, Except.bind] at h
     split at h
@@ -109,7 +109,7 @@ theorem generateLoop_ok (ttl ty : Nat) (items : List (List Nat × List Nat)) (r 
       obtain ⟨e, r1⟩ := v
       simp only at h
       cases e with
-      | none => simp [pure, Except.pure] at h; rw [← h.2.2]; exact hz
+      | none => exact ih r1 z hz h
       | some e =>
         simp only at h
         split at h
@@ -124,18 +124,7 @@ theorem generateLine_ok (r r' : PState) (z z' : ZoneMap) (hz : ZoneOK z)
   · cases h
   · rename_i v hv
     obtain ⟨hd, r1⟩ := v
-    simp only at h
-    split at h
-    · cases h
-    · rename_i w hw
-      obtain ⟨stopped, r2, z2⟩ := w
-      have hz2 : ZoneOK z2 := generateLoop_ok _ _ _ _ _ _ _ _ hz hw
-      simp only at h
-      split at h
-      · split at h
-        · cases h
-        · simp [pure, Except.pure] at h; rw [← h.2]; exact hz2
-      · simp [pure, Except.pure] at h; rw [← h.2]; exact hz2
+    exact generateLoop_ok _ _ _ _ _ _ _ hz h
 
 theorem readStep_ok (r r' : PState) (z z' : ZoneMap) (hz : ZoneOK z)
     (h : readStep r z = .ok (some (r', z'))) : ZoneOK z' := by
